@@ -45,18 +45,22 @@ pub struct Cfg {
     pub payload: usize,
     /// explicit per-message payload sizes (mixed-size configurations); overrides count/payload
     pub sizes: Option<Vec<usize>>,
+    /// highly compressible payloads (a batch may then decompress to several MiB while its frame is tiny)
+    pub compressible: bool,
     pub id: u64,
 }
 
 impl Cfg {
     fn json(&self) -> Value {
         json!({"codec": self.codec, "compression": self.compression, "batching": self.batch.map(|(s, i)| json!({"size": s, "interval_ms": i})),
-               "messages": self.count, "payload_bytes": self.payload, "payload_sizes": self.sizes})
+               "messages": self.count, "payload_bytes": self.payload, "payload_sizes": self.sizes, "compressible_payloads": self.compressible})
     }
 }
 
 pub trait ItemKind: Clone + PartialEq + Debug + Send + Unpin + 'static {
     fn make(i: u64, size: usize, rng: &mut Rng) -> Self;
+    /// same, but highly repetitive content
+    fn make_compressible(i: u64, size: usize) -> Self;
     fn sentinel(k: u64) -> Self;
     fn is_sentinel(&self) -> Option<u64>;
     fn brief(&self) -> String;
@@ -67,6 +71,14 @@ impl ItemKind for String {
         let mut s = format!("m{:06}|", i);
         while s.len() < size {
             s.push((b'a' + rng.below(26) as u8) as char);
+        }
+        s
+    }
+    fn make_compressible(i: u64, size: usize) -> Self {
+        let mut s = format!("m{:06}|", i);
+        let pat = ["selium ", "abcabc", "0000000000"][(i % 3) as usize];
+        while s.len() < size {
+            s.push_str(pat);
         }
         s
     }
@@ -90,6 +102,13 @@ impl ItemKind for Vec<u8> {
         }
         v
     }
+    fn make_compressible(i: u64, size: usize) -> Self {
+        let mut v = format!("m{:06}|", i).into_bytes();
+        if size > v.len() {
+            v.resize(size, (i % 251) as u8);
+        }
+        v
+    }
     fn sentinel(k: u64) -> Self {
         let mut v = vec![0xFF, b'S'];
         v.extend_from_slice(&k.to_be_bytes());
@@ -110,6 +129,9 @@ impl ItemKind for Vec<u8> {
 impl ItemKind for Rec {
     fn make(i: u64, size: usize, rng: &mut Rng) -> Self {
         Rec { id: i, text: format!("m{:06}", i), blob: rng.bytes(size.saturating_sub(30)) }
+    }
+    fn make_compressible(i: u64, size: usize) -> Self {
+        Rec { id: i, text: format!("m{:06}", i), blob: vec![(i % 7) as u8; size.saturating_sub(30)] }
     }
     fn sentinel(k: u64) -> Self {
         Rec { id: u64::MAX - k, text: "SENTINEL".into(), blob: vec![] }
@@ -227,7 +249,7 @@ where
     let mut sent: Vec<T> = vec![];
     for i in 0..cfg.count {
         let size = cfg.sizes.as_ref().map_or(cfg.payload, |v| v[i]);
-        let item = T::make(i as u64, size, &mut rng);
+        let item = if cfg.compressible { T::make_compressible(i as u64, size) } else { T::make(i as u64, size, &mut rng) };
         match publisher.send(item.clone()).await {
             Ok(()) => sent.push(item),
             Err(e) => {
@@ -342,7 +364,7 @@ fn configs(tier: &str, rng: &mut Rng) -> Vec<Cfg> {
     let mut id = 0u64;
     let mut push = |codec: &'static str, comp: Option<&str>, batch: Option<(u32, u64)>, count: usize, payload: usize, v: &mut Vec<Cfg>| {
         id += 1;
-        v.push(Cfg { codec, compression: comp.map(|s| s.to_string()), batch, count, payload, sizes: None, id });
+        v.push(Cfg { codec, compression: comp.map(|s| s.to_string()), batch, count, payload, sizes: None, compressible: false, id });
     };
     // systematic core: every codec × every compression, unbatched and batched with a partial tail
     for codec in codecs {
@@ -374,6 +396,18 @@ fn configs(tier: &str, rng: &mut Rng) -> Vec<Cfg> {
             push("bincode", Some("lz4"), Some((2, 3_600_000)), count, payload, &mut v);
             push("string", Some("gzip"), Some((4, 0)), count, payload, &mut v);
         }
+    }
+    // compressible bulk: batches of individually legal messages that decompress to more than the frame limit
+    // while the compressed batch frame stays tiny (compression is applied to the whole batch)
+    let n_bulk = if thorough { 60 } else { 10 };
+    for k in 0..n_bulk {
+        let comp = ["zstd", "gzip", "zlib", "lz4", "brotli-generic", "zstd-fastest", "brotli-text", "zlib-9", "gzip-fastest", "brotli-font"][k % 10];
+        let codec = codecs[k % 3];
+        let per = *rng.pick(&[200_000usize, 400_000, 700_000, 1_000_000]);
+        let batch_n = *rng.pick(&[3u32, 4, 6]);
+        let count = batch_n as usize + rng.below(3) as usize; // a full batch and a partial tail flushed by finish()
+        push(codec, Some(comp), Some((batch_n, 3_600_000)), count, per, &mut v);
+        v.last_mut().unwrap().compressible = true;
     }
     // mixed payload sizes inside one stream: a few large messages among tiny ones, total below the frame
     // limit so that every possible batch still fits into one frame
@@ -473,7 +507,7 @@ pub fn run(rep: &mut StageReport, tier: &str, seed: u64) {
     for (cfg, o) in results {
         rep.evaluations += 1;
         let mut h = Hasher64::new();
-        h.s(&format!("{:?}", (cfg.codec, &cfg.compression, cfg.batch, cfg.count, cfg.payload, &cfg.sizes)));
+        h.s(&format!("{:?}", (cfg.codec, &cfg.compression, cfg.batch, cfg.count, cfg.payload, &cfg.sizes, cfg.compressible)));
         match o {
             Outcome::Held { delivered } => {
                 delivered_total += delivered as u64;
